@@ -14,6 +14,8 @@ import (
 
 	"aurora-verif/checker/core"
 	"aurora-verif/checker/props"
+
+	"golang.org/x/tools/go/ssa"
 )
 
 func main() {
@@ -22,8 +24,29 @@ func main() {
 	repo := flag.String("repo", "/repo", "repository working tree")
 	verif := flag.String("verif", "/verif", "verification directory (evidence, known findings)")
 	replay := flag.String("replay", "", "replay file written by an earlier failing run")
+	dump := flag.String("dump", "", "debug: 'pkg/rel FuncRelString' — print the SSA and resolved callee names of one function")
 	manifest := flag.Bool("manifest", false, "print MANIFEST.json for the registered properties and exit")
 	flag.Parse()
+	if *dump != "" {
+		w, err := core.Load(*repo, nil)
+		if err != nil {
+			fmt.Println(err)
+			os.Exit(1)
+		}
+		parts := strings.SplitN(*dump, " ", 2)
+		for _, fn := range w.PkgFuncs(parts[0]) {
+			if len(parts) == 2 && !strings.HasPrefix(fn.RelString(fn.Pkg.Pkg), parts[1]) {
+				continue
+			}
+			fn.WriteTo(os.Stdout)
+			core.EachInstr(fn, func(_ *ssa.BasicBlock, _ int, in ssa.Instruction) {
+				if c := core.Common(in); c != nil {
+					fmt.Printf("  call %-60s at %s\n", core.CalleeName(c), w.Pos(in.Pos()))
+				}
+			})
+		}
+		return
+	}
 	if *manifest {
 		writeManifest()
 		return
